@@ -52,9 +52,10 @@ SECURITY_FNS = ["has_permission", "apply_if_auth", "apply_to_database_name_if_ha
 
 PROPS = {
     "C01": dict(
-        units=["store", "listing", "snapshot"],
+        units=["store", "listing", "snapshot", "replies"],
         kani=[K_PATTERN_CHOICE],
-        undecided=["parser / dispatcher glue between the command line and these functions",
+        undecided=["parser glue (that `get k` parses to Request::Get{key: k} ...) and the dispatcher arms of the WRITING commands (set / set-safe / remove / increment: their closures "
+                   "mutate through a shared &Database, which a Verus closure cannot express) - the reading arms Get / GetSafe / Keys are verified with their closure bodies (unit replies)",
                    "`keys`: String's ordering (the meaning of 'sorted') is an uninterpreted total order; the Keys arm of the dispatcher (which list_system_keys flag it passes) is "
                    "covered by the bounded sweep only"],
         assumptions=["Display for Value prints its value field (trusted axiom; impl at bo.rs is compiled but not verified)",
@@ -87,14 +88,14 @@ PROPS = {
                      "AtomicUsize::fetch_add is modelled as a wrapping add on a plain usize"],
     ),
     "C08": dict(
-        units=["security", "store", "dispatch", "listing"],
+        units=["security", "store", "dispatch", "listing", "replies"],
         kani=[K_FILTER],
         undecided=["handlers that do not go through apply_if_safe_access: the Resolve, Arbiter and rp (ReplicateRequest) arms of the dispatcher "
                    "- a non-admin `resolve ... $$token ...` is outside every contract here (the six keyed data arms get / get-safe / watch / set / increment / "
                    "remove ARE verified to pass their key through the guard, unit dispatch)",
                    "two-run noninterference is reduced to: the guarded closure is not callable and the reply is an error",
-                   "which list_system_keys flag the Keys arm of the dispatcher passes to Database::list_keys (the listing itself, filter closure included, is verified in unit "
-                   "listing: C08.listing-hides-secure)"],
+                   "the WRITING arms' closure bodies (set / remove / increment on a $$ key are guarded - unit dispatch - but what the closure does once allowed is verified only for the "
+                   "reading arms: unit replies, incl. `keys` asking for system keys exactly for an administrator session)"],
         assumptions=["str::starts_with is a prefix test (trusted shim)",
                      "closures: `opp` may be called only where its precondition is provable; the caller contract makes that precondition available only when "
                      "the session may access the key"],
@@ -221,8 +222,8 @@ PROPS = {
         assumptions=["Change::new stamps the resolving change with the wall clock (any u64)"],
     ),
     "C10": dict(
-        units=["store", "consensus", "security", "ids", "oplog", "pending", "parser", "sessions", "http", "election", "snapshot", "sync", "listing", "permissions"],
-        reachable={"permissions": ["Permission::from", "Permission::permissions_from_str", "From<char>@PermissionKind::from", "has_permission"], "listing": ["Database::list_keys", "filter_system_keys", "get_function_by_pattern", "starts_with", "ends_with", "contains", "Database::list_conflicts_keys",
+        units=["store", "consensus", "security", "ids", "oplog", "pending", "parser", "sessions", "http", "election", "snapshot", "sync", "listing", "permissions", "replies"],
+        reachable={"replies": ["get_key_value", "get_key_value_safe", "arm_get", "arm_get_safe", "arm_keys"], "permissions": ["Permission::from", "Permission::permissions_from_str", "From<char>@PermissionKind::from", "has_permission"], "listing": ["Database::list_keys", "filter_system_keys", "get_function_by_pattern", "starts_with", "ends_with", "contains", "Database::list_conflicts_keys",
                                "Database::has_pendding_conflict", "Database::register_arbiter"], "sync": ["make_create_db_command", "get_full_sync_opps", "get_pendding_opps_since"], "snapshot": ["NodeDrive::storage_data_disk", "write_value", "write_key", "update_key", "write_new_key_value", "get_key_disk_size", "create_db_from_file_name", "ValueStatus::to_le_bytes"], "http": ["process_commands"], "election": ["election_eval", "start_election", "start_new_election", "election_win", "Databases::get_role", "Databases::is_eligible", "Databases::is_primary", "From<usize>@ClusterRole::from"], "store": STORE_FNS, "security": SECURITY_FNS, "pending": ["ReplicationMessage::new", "ReplicationMessage::ack", "ReplicationMessage::replicated", "ReplicationMessage::is_full_acknowledged",
                    "ReplicationMessage::count_replication", "ReplicationMessage::count_acknowledged", "ReplicationMessage::get_copy", "Databases::register_pending_opp",
                    "Databases::acknowledge_pending_opp", "Databases::get_pending_opp_copy"],
